@@ -194,6 +194,9 @@ func fatalSignature(log string) (string, string) {
 	if msg == "" {
 		return "", ""
 	}
+	if strings.Contains(msg, "out of memory") || strings.Contains(msg, "cannot allocate") {
+		return "oom", msg // resource exhaustion of the worker process, not a verdict about one run
+	}
 	frame := "?"
 	lines := strings.Split(log, "\n")
 	for i, ln := range lines {
@@ -350,11 +353,18 @@ func cmdRun(args []string) {
 	defer b.cleanup()
 	buildS := time.Since(start).Seconds()
 
+	// A tree that breaks the property badly makes most runs fail; the first few
+	// dozen violating runs per worker say everything, the rest is skipped.
+	maxBad := 24
+	if *tier == "thorough" {
+		maxBad = 200
+	}
 	// fan out
 	sums := make([]*summary, nw)
 	errs := make([]string, nw)
 	var crashes []crashInfo
 	var crashMu sync.Mutex
+	oomRestarts := 0
 	var wg sync.WaitGroup
 	for i := 0; i < nw; i++ {
 		wg.Add(1)
@@ -362,14 +372,22 @@ func cmdRun(args []string) {
 			defer wg.Done()
 			var skip []int
 			for attempt := 0; attempt < 12; attempt++ {
-				j := job{"mode": "run", "property": *prop, "tier": *tier, "seed": seed, "worker": i, "workers": nw, "replay_dir": replayDir, "race_bin": b.race, "skip": skip}
+				j := job{"mode": "run", "property": *prop, "tier": *tier, "seed": seed, "worker": i, "workers": nw, "replay_dir": replayDir, "race_bin": b.race, "skip": skip, "max_bad": maxBad}
 				var ci *crashInfo
 				sums[i], errs[i], ci = startWorker(b.worker, b.dir, j, strconv.Itoa(i), []string{"GOMAXPROCS=1"}, 6_000_000)
 				if ci == nil {
 					return
 				}
-				// a run killed the worker process: that is a host crash of that run
 				skip = append(skip, ci.Idx)
+				if ci.Sig == "oom" {
+					// the worker process ran out of memory (leaked goroutines of many violating
+					// runs): restart it behind that run; not a verdict
+					crashMu.Lock()
+					oomRestarts++
+					crashMu.Unlock()
+					continue
+				}
+				// a run killed the worker process: that is a host crash of that run
 				crashMu.Lock()
 				crashes = append(crashes, *ci)
 				crashMu.Unlock()
@@ -387,6 +405,9 @@ func cmdRun(args []string) {
 
 	// merge
 	total := &summary{Faults: map[string]int{}, Probes: map[string]int{}, Workloads: map[string]int{}, MapSites: map[string]int{}, Extra: map[string]float64{}}
+	if oomRestarts > 0 {
+		total.Extra["worker_restarts_after_out_of_memory"] = float64(oomRestarts)
+	}
 	distinct := map[string]bool{}
 	inter := map[string]bool{}
 	bySig := map[string]*violation{}
